@@ -118,7 +118,8 @@ def r3_trivia(c, facts):
     callers = sorted({fn.qname for fn in facts.fns.values() if fn.mir and P.call_blocks(fn, 'TokenList::advance')})
     allowed = {'oal_model::grammar::Context::skip_trivia', 'oal_model::grammar::Context::pop'}
     import re
-    extra = [q for q in callers if 'std::fmt::Debug' not in q and not facts.reached_only_through(facts.fn(q) or facts.by_qname[q][0], allowed)]
+    allowed |= {q for q in facts.by_qname if 'std::fmt::Debug' in q}      # diagnostic output only
+    extra = [q for q in callers if not facts.reached_only_through(facts.fn(q) or facts.by_qname[q][0], allowed)]
     if callers and not extra:
         c.ok(R, {'TokenList::advance callers': callers})
     else:
